@@ -581,6 +581,29 @@ func init() {
 		return !fr.ex().spawned[i].ran
 	})
 	reg("verifSpawnedTag", func(fr *frame, a []value) value { return fr.ex().spawned[int(asInt64(a[0]))].tag })
+	reg("verifSpawnedValues", func(fr *frame, a []value) value {
+		// closure bindings and call arguments of a pending goroutine, as interface values
+		s := fr.ex().spawned[int(asInt64(a[0]))]
+		var out []value
+		var f *ssa.Function
+		switch fn := s.fn.(type) {
+		case *closure:
+			f = fn.Fn
+			for i, fv := range f.FreeVars {
+				out = append(out, iface{t: fv.Type(), v: fn.Env[i]})
+			}
+		case *ssa.Function:
+			f = fn
+		}
+		if f != nil {
+			for i, p := range f.Params {
+				if i < len(s.args) {
+					out = append(out, iface{t: p.Type(), v: s.args[i]})
+				}
+			}
+		}
+		return out
+	})
 	reg("verifRunSpawned", func(fr *frame, a []value) value {
 		ex := fr.ex()
 		s := ex.spawned[int(asInt64(a[0]))]
